@@ -34,6 +34,27 @@ theorem constants_match_source :
     Gen.Sixel.src_parse_next_number = "x.saturating_mul(10).saturating_add(ch as i32).saturating_sub(b'0' as i32)" :=
   gen_constants_tie
 
+/-- the raster attribute arm of `parse_char` is the code `sizeArm` was written against: both forms resize the row
+    vector to the declared height unconditionally (`Vec::resize` grows AND cuts), then set `height_set`; any edit there
+    breaks this obligation until the model has been revisited (the translator copies the text on every run) -/
+theorem raster_source_unchanged :
+    Gen.Sixel.src_raster_arm = [
+      "self.vertical_scale = self.parsed_numbers[0];",
+      "self.horizontal_scale = self.parsed_numbers[1];",
+      "if self.parsed_numbers.len() == 3 {",
+      "let height = self.parsed_numbers[2];",
+      "self.picture_data.resize(height as usize, Vec::new());",
+      "self.height_set = true;",
+      "}",
+      "if self.parsed_numbers.len() == 4 {",
+      "let height = self.parsed_numbers[3];",
+      "let width = self.parsed_numbers[2];",
+      "self.picture_data.resize(height as usize, vec![0; 4 * width as usize]);",
+      "self.height_set = true;",
+      "}",
+      "self.state = SixelState::Read;"] := by
+  decide
+
 /-- **Rectangularity.** Every image the parser returns holds exactly `w * h * 4` bytes; the common row
     length is the widest row (rows are padded, never cut) and all sizes are in `i32` range. -/
 theorem sixel_rect (payload : List Char) (img : Img) (h : parse payload = .ok img) :
@@ -58,16 +79,18 @@ theorem sixel_pad_only (payload : List Char) (s : St) (h : parseSt payload = .ok
   simp only [finish, rowLen, RowOK] at *
   omega
 
-/-- **Consistency with a declared raster size.** If the prefix `hdr` leaves the parser inside a raster
-    attribute whose numbers declare `W × H` (`"Pan;Pad;Ph;Pv` or `"Pan;Pad;Pv`), the next character `c`
-    ends the attribute, and no further `"` follows, then the image is exactly `H` pixels high (taller data
-    is clipped, shorter data is padded), and — if the declaration came before any picture data and
-    `H > 0` — at least `W` wide (wider data extends it). -/
+/-- **Consistency with a declared raster size — wherever the attribute stands.** `hdr` is ANY prefix of the payload
+    (picture data, `-`, `$`, colour definitions, earlier raster attributes) that leaves the parser inside a raster
+    attribute whose numbers declare `W × H` (`"Pan;Pad;Ph;Pv` or `"Pan;Pad;Pv`, `W = 0`); the next character `c` ends
+    the attribute, and no further `"` follows.  Then the image is exactly `H` pixels high: rows that were decoded
+    BEFORE the attribute arrived and lie above `H` are cut (`picture_data.resize` of both arms), taller data after it
+    is clipped, shorter data is padded; and if the attribute adds rows (`H` exceeds the rows decoded so far — in
+    particular if it comes before any picture data and `H > 0`) the image is at least `W` wide (wider data extends it). -/
 theorem sixel_raster_consistent (hdr rest : List Char) (c : Char) (s : St) (W H : Nat) (img : Img)
     (hh : run {} hdr = .ok s) (hst : s.state = .readSize) (hd : declared s.nums = some (W, H))
     (hc1 : c.isDigit = false) (hc2 : c ≠ ';') (hc3 : c ≠ '"') (hrest : ∀ ch ∈ rest, ch ≠ '"')
     (h : parse (hdr ++ c :: rest) = .ok img) :
-    img.h = H ∧ (s.rows = [] → 0 < H → W ≤ img.w) := by
+    img.h = H ∧ (s.rows.length < H → W ≤ img.w) ∧ (s.rows = [] → 0 < H → W ≤ img.w) := by
   unfold parse mapOut at h
   obtain ⟨sf, hs, hf⟩ := andThen_ok h
   injection hf with hf; subst hf
@@ -85,12 +108,39 @@ theorem sixel_raster_consistent (hdr rest : List Char) (c : Char) (s : St) (W H 
     intro ch hch; rcases List.mem_append.1 hch with h' | h'
     · exact hrest ch h'
     · simp at h'; subst h'; decide) h2
-  refine ⟨ff.len, ?_⟩
+  have key : s.rows.length < H → W ≤ (finish sf).w := by
+    intro hlt
+    have hl := ff.len
+    obtain ⟨r, hr⟩ : ∃ r, sf.rows[s.rows.length]? = some r := by
+      have : s.rows.length < sf.rows.length := by omega
+      exact ⟨_, List.getElem?_eq_getElem this⟩
+    have h4 := ff.wide _ r (Nat.le_refl _) hr
+    have := rowLen_ge_of_getElem? hr h4
+    simp only [finish]; omega
+  refine ⟨ff.len, key, ?_⟩
   intro he hH
-  have hne : sf.rows ≠ [] := by intro h'; have := ff.len; rw [h'] at this; simp at this; omega
-  have := rowLen_ge hne ff.wide
-  simp only [he, if_true] at this
-  simp only [finish]; omega
+  exact key (by rw [he]; exact hH)
+
+/-- the same at the END of the payload: an attribute that is still open when the data ends is closed by the final
+    `#` that `parse_from` feeds to the parser (`hdr` again any prefix) -/
+theorem sixel_raster_consistent_at_end (hdr : List Char) (s : St) (W H : Nat) (img : Img)
+    (hh : run {} hdr = .ok s) (hst : s.state = .readSize) (hd : declared s.nums = some (W, H))
+    (h : parse hdr = .ok img) :
+    img.h = H ∧ (s.rows.length < H → W ≤ img.w) := by
+  have h' : parse (hdr ++ '#' :: []) = .ok img := by
+    unfold parse mapOut at h ⊢
+    obtain ⟨sf, hs, hf⟩ := andThen_ok h
+    rw [run_append, hh] at hs
+    simp only [Out.andThen] at hs
+    rw [List.append_assoc, run_append, hh]
+    simp only [Out.andThen]
+    show (run s (['#'] ++ ['#'])).andThen _ = _
+    rw [run_append, hs]
+    simp only [Out.andThen]
+    rw [flush_idem hst hs]
+    exact hf
+  have := sixel_raster_consistent hdr [] '#' s W H img hh hst hd (by decide) (by decide) (by decide) (by simp) h'
+  exact ⟨this.1, this.2.1⟩
 
 /-- **No panic** (every char list): the parser returns an image, a parse error or the out-of-range outcome
     `huge`; every index, slice, `%` and — since the three cursor `fix:` commits — every `i32` operation is safe.
@@ -137,6 +187,17 @@ example : parse "#1;2;100;0;0!3~-!2?".toList = .ok ⟨3, 12, 144⟩ := by decide
 /-- a raster attribute declaring 3×2 before data that is 5 wide and 18 high: clipped to 2 rows, 5 wide -/
 example : run {} "\"1;1;3;2".toList = .ok { state := .readSize, nums := [1, 1, 3, 2] } := by decide
 example : parse "\"1;1;3;2~~~~~-~-~".toList = .ok ⟨5, 2, 40⟩ := by decide
+/-- LATE raster attributes: two bands (12 rows) were decoded, then `"1;1;4;8` arrives: rows 8..11 are cut -/
+example : run {} "~~~~-~~~~\"1;1;4;8".toList =
+    .ok { state := .readSize, nums := [1, 1, 4, 8], x := 4, y := 1, rows := List.replicate 12 16 } := by decide
+example : parse "~~~~-~~~~\"1;1;4;8".toList = .ok ⟨4, 8, 128⟩ := by decide
+/-- the three-number form cuts as well; data after it is clipped at the declared height -/
+example : parse "~-~\"1;1;7~~~".toList = .ok ⟨4, 7, 112⟩ := by decide
+example : parse "~~~-~\"1;1;2;9~~~-~".toList = .ok ⟨4, 9, 144⟩ := by decide
+/-- a late attribute that ADDS rows makes them as wide as declared: one band of one pixel, then 5×12 -/
+example : parse "~\"1;1;5;12".toList = .ok ⟨5, 12, 240⟩ := by decide
+/-- several attributes: the last one that declares a size counts -/
+example : parse "\"1;1;9;30~-~\"1;1;2;3~-~".toList = .ok ⟨9, 3, 108⟩ := by decide
 example : parse " ".toList = .err .invalidSixelChar := by decide
 /-- numbers beyond `MAX_SIXEL_SIZE` are parse errors (formerly an allocation of that size: finding `alloc`, repaired) -/
 example : parse "\"1;1;2147483599~".toList = .err .invalidPictureSize := by decide
@@ -263,6 +324,44 @@ theorem no_loss (cfg : Cfg) (evs : List Ev) (pre post : List (Nat × Option Res)
     exact mem_okIds (by simp [hid]) hres
   · exact pollLoop_ok_head cfg _ _ _ false b hr
 
+/-- **An error return loses nothing.** In every reachable state whose queue starts with a block `pre` of finished
+    handles none of which failed, followed by a handle whose decode FAILED (`result?`): the poll reports the error,
+    takes exactly `pre` and the failing handle from the queue (`post` stays, in order, for the next poll), and every
+    image of `pre` that decoded fine has been pushed; the layer is the arrival-order placement of ALL handles taken so
+    far — an image that left the queue is on the layer (or covered by a later one), however many finished decodes met
+    this poll and wherever the failing one stood among them. -/
+theorem no_loss_at_error (cfg : Cfg) (evs : List Ev) (pre post : List (Nat × Option Res)) (bad : Nat)
+    (hq : (run cfg evs).queue = pre ++ (bad, some .err) :: post) (hf : AllFinished pre)
+    (hne : ∀ e ∈ pre, e.2 ≠ some .err) :
+    (poll cfg (run cfg evs)).2 = .err ∧
+    (run cfg (evs ++ [Ev.poll])).queue = post ∧
+    (∀ id img, id ∈ ids pre → cfg.res id = .ok img → id ∈ (run cfg (evs ++ [Ev.poll])).log) ∧
+    ∃ popped, arrivals evs = popped ++ ids post ∧ (∀ id ∈ ids pre, id ∈ popped) ∧
+      (run cfg (evs ++ [Ev.poll])).log = okIds cfg popped ∧
+      (run cfg (evs ++ [Ev.poll])).layer = placeAll cfg (okImgs cfg popped) := by
+  have hrun : run cfg (evs ++ [Ev.poll]) = (poll cfg (run cfg evs)).1 := by simp [run, List.foldl_append, step]
+  rw [hrun]
+  obtain ⟨popped, g⟩ := run_good cfg evs
+  obtain ⟨p, h1, h2, h3, _, _⟩ := pollLoop_good cfg (run cfg evs).queue (run cfg evs).layer (run cfg evs).log false popped
+    g.layer g.log g.entries
+  have hs := pollLoop_stops_at_err cfg pre post bad (run cfg evs).layer (run cfg evs).log false hf hne
+  unfold poll
+  rw [hq] at h1 h2 h3 ⊢
+  rw [hs.2] at h1
+  have hp : p = ids pre ++ [bad] := by
+    have e0 : ids (pre ++ (bad, some Res.err) :: post) = (ids pre ++ [bad]) ++ ids post := by simp [ids]
+    rw [e0] at h1
+    exact (List.append_cancel_right h1).symm
+  have hmem : ∀ id ∈ ids pre, id ∈ popped ++ p := by
+    intro id hid; rw [hp]; simp [hid]
+  refine ⟨hs.1, hs.2, ?_, popped ++ p, ?_, hmem, h3, h2⟩
+  · intro id img hid hres
+    rw [h3]
+    exact mem_okIds (hmem id hid) hres
+  · have := g.split
+    rw [hq] at this
+    rw [this, hp]; simp [ids]
+
 /-- **Clear-screen**: whatever happened before it — images shown, decodes queued or still running — the state
     after a clear-screen is the initial one, so nothing that arrived before it can ever appear afterwards,
     whenever its decode finishes -/
@@ -281,6 +380,13 @@ example : ((run exCfg exSched).layer.map (·.id)) = [1, 2] := by decide
 example : (run exCfg exSched).log = [0, 1, 2] := by decide
 example : (run exCfg exSched).queue = [] := by decide
 example : (run exCfg [.arrive 0, .arrive 1, .finish 1, .poll]).layer = [] := by decide
+/-- two good images and a failing decode (id 7) between / behind them, all finished when ONE poll comes: the poll
+    returns the error, the images in front of the failing decode are shown, the one behind it is still queued -/
+example : (poll exCfg (run exCfg [.arrive 0, .arrive 1, .arrive 7, .arrive 2, .finish 2, .finish 7, .finish 1, .finish 0])).2 = .err := by decide
+example : (run exCfg [.arrive 0, .arrive 1, .arrive 7, .arrive 2, .finish 2, .finish 7, .finish 1, .finish 0, .poll]).log = [0, 1] := by decide
+example : (run exCfg [.arrive 0, .arrive 1, .arrive 7, .arrive 2, .finish 2, .finish 7, .finish 1, .finish 0, .poll]).queue =
+    [(2, some (.ok ⟨2, 0, 0, 8, 12⟩))] := by decide
+example : (run exCfg [.arrive 0, .arrive 1, .arrive 7, .arrive 2, .finish 2, .finish 7, .finish 1, .finish 0, .poll, .poll]).log = [0, 1, 2] := by decide
 example : AllFinished (run exCfg [.arrive 0, .arrive 1, .finish 1, .finish 0]).queue := by unfold AllFinished; decide
 example : (run exCfg [.arrive 0, .arrive 1, .finish 0, .poll, .clear, .finish 1, .poll, .arrive 2, .finish 2, .poll]).layer.map (·.id) = [2] := by
   decide
